@@ -207,9 +207,13 @@ def run(tier, rep):
             if norm(d) != norm(m):
                 bag.add('C10|mappings-decode-encode-differs',
                         {'mappings': m}, 'got %r' % (d,))
-            if R5.decode_mappings_relative(e) != norm(m):
+            try:
+                rd = R5.decode_mappings_relative(e)
+            except Exception as ex:
+                rd = repr(ex)
+            if rd != norm(m):
                 bag.add('C10|mappings-independent-decoder-disagrees',
-                        {'mappings': m}, 'encoded %r' % (e,))
+                        {'mappings': m}, 'encoded %r read as %r' % (e, rd))
         return len(items), bag
     for n, bag in pmap(work_maps, structs):
         tot += n
